@@ -193,8 +193,13 @@ class HelicityModel:
         for name in renames:
             if name not in symbol_names:
                 _LOGGER.warning(f"There is no symbol with name {name}")
+        existing_symbols = {s.name: s for s in symbols if s.name not in renames}
         symbol_mapping = {
-            s: sp.Symbol(renames[s.name], **s.assumptions0) if s.name in renames else s
+            s: existing_symbols.get(
+                renames[s.name], sp.Symbol(renames[s.name], **s.assumptions0)
+            )
+            if s.name in renames
+            else s
             for s in symbols
         }
         return attrs.evolve(
@@ -221,6 +226,7 @@ class HelicityModel:
     def __collect_symbols(self) -> set[sp.Symbol]:
         symbols: set[sp.Symbol] = self.expression.free_symbols  # type: ignore[assignment]
         symbols |= set(self.kinematic_variables)
+        symbols |= {s for s in self.parameter_defaults if isinstance(s, sp.Symbol)}
         for expr in self.kinematic_variables.values():
             symbols |= expr.free_symbols  # type: ignore[arg-type]
         return symbols
